@@ -34,9 +34,9 @@ type FKid struct {
 }
 
 type FCase struct {
-	Budget  int    `json:"budget"`            // MaxRestarts of the parent
+	Budget  int    `json:"budget"` // MaxRestarts of the parent
 	Kids    []FKid `json:"kids"`
-	Hold    int    `json:"hold,omitempty"`    // how long the gates stay shut after the parent's death was announced: 0 none, 1 yield, 2 a millisecond
+	Hold    int    `json:"hold,omitempty"`     // how long the gates stay shut after the parent's death was announced: 0 none, 1 yield, 2 a millisecond
 	InStart bool   `json:"in_start,omitempty"` // the parent's last panic is in the Started handler of its last incarnation
 }
 
